@@ -560,6 +560,8 @@ def _run_target(contract, pf, st, I):
     args = st.get("args", [])
     kwargs = st.get("kwargs", {})
     I.overrides[pf.qualname] = pf
+    for q, f in getattr(pf, "extra_overrides", {}).items():  # canary edit of an inlined callee
+        I.overrides[q] = f
     if "drive" in st:
         def caller(obj, name, *a, **kw):
             if name is None:
